@@ -14,6 +14,7 @@ import (
 	"sort"
 	"strconv"
 	"strings"
+	"sync"
 	"sync/atomic"
 	"syscall"
 	"time"
@@ -39,6 +40,7 @@ import (
 )
 
 var clnSeq atomic.Int64
+var panicsMu sync.Mutex // guards Env.Panics (concurrent requests may panic together)
 
 type Opts struct {
 	FeePpk uint
@@ -66,7 +68,6 @@ type Env struct {
 	Crashed *ctl.Event
 	// Hook, if set, wraps every guarded API call (monitors take snapshots around it).
 	Hook   func(name string, call func() error) error
-	op     string
 	server *mint.MintServer
 }
 
@@ -250,12 +251,12 @@ func (e *Env) Active() *client.Keyset {
 }
 
 // guard runs a mint API call, converting panics and simulated crashes.
-func (e *Env) guard(fn func() error) (err error) {
+func (e *Env) guard(op string, fn func() error) (err error) {
 	if e.Hook != nil {
 		h := e.Hook
 		e.Hook = nil // calls made by the monitor itself are not hooked
 		defer func() { e.Hook = h }()
-		return h(e.op, func() error { return e.guard0(fn) })
+		return h(op, func() error { return e.guard0(fn) })
 	}
 	return e.guard0(fn)
 }
@@ -270,7 +271,9 @@ func (e *Env) guard0(fn func() error) (err error) {
 				return
 			}
 			msg := fmt.Sprint(x)
+			panicsMu.Lock()
 			e.Panics = append(e.Panics, msg)
+			panicsMu.Unlock()
 			err = &ErrPanic{msg}
 		}
 	}()
@@ -283,8 +286,7 @@ func IsPanic(err error) bool {
 }
 
 func (e *Env) RequestMintQuote(amount uint64, pubkey string) (q storage.MintQuote, err error) {
-	e.op = "RequestMintQuote"
-	err = e.guard(func() error {
+	err = e.guard("RequestMintQuote", func() error {
 		var er error
 		q, er = e.M.RequestMintQuote(nut04.PostMintQuoteBolt11Request{Amount: amount, Unit: "sat", Pubkey: pubkey})
 		return er
@@ -293,14 +295,12 @@ func (e *Env) RequestMintQuote(amount uint64, pubkey string) (q storage.MintQuot
 }
 
 func (e *Env) MintQuoteState(id string) (q storage.MintQuote, err error) {
-	e.op = "MintQuoteState"
-	err = e.guard(func() error { var er error; q, er = e.M.GetMintQuoteState(id); return er })
+	err = e.guard("MintQuoteState", func() error { var er error; q, er = e.M.GetMintQuoteState(id); return er })
 	return
 }
 
 func (e *Env) MintTokens(quote string, outs cashu.BlindedMessages, sig string) (sigs cashu.BlindedSignatures, err error) {
-	e.op = "MintTokens"
-	err = e.guard(func() error {
+	err = e.guard("MintTokens", func() error {
 		var er error
 		sigs, er = e.M.MintTokens(nut04.PostMintBolt11Request{Quote: quote, Outputs: outs, Signature: sig})
 		return er
@@ -309,14 +309,12 @@ func (e *Env) MintTokens(quote string, outs cashu.BlindedMessages, sig string) (
 }
 
 func (e *Env) Swap(inputs cashu.Proofs, outs cashu.BlindedMessages) (sigs cashu.BlindedSignatures, err error) {
-	e.op = "Swap"
-	err = e.guard(func() error { var er error; sigs, er = e.M.Swap(inputs, outs); return er })
+	err = e.guard("Swap", func() error { var er error; sigs, er = e.M.Swap(inputs, outs); return er })
 	return
 }
 
 func (e *Env) RequestMeltQuote(request string, mppMsat uint64) (q storage.MeltQuote, err error) {
-	e.op = "RequestMeltQuote"
-	err = e.guard(func() error {
+	err = e.guard("RequestMeltQuote", func() error {
 		req := nut05.PostMeltQuoteBolt11Request{Request: request, Unit: "sat"}
 		if mppMsat > 0 {
 			req.Options = map[string]nut05.MppOption{"mpp": {AmountMsat: mppMsat}}
@@ -329,8 +327,7 @@ func (e *Env) RequestMeltQuote(request string, mppMsat uint64) (q storage.MeltQu
 }
 
 func (e *Env) MeltQuoteState(id string) (q storage.MeltQuote, err error) {
-	e.op = "MeltQuoteState"
-	err = e.guard(func() error {
+	err = e.guard("MeltQuoteState", func() error {
 		ctx, cancel := context.WithTimeout(context.Background(), 5*time.Second)
 		defer cancel()
 		var er error
@@ -341,8 +338,7 @@ func (e *Env) MeltQuoteState(id string) (q storage.MeltQuote, err error) {
 }
 
 func (e *Env) Melt(quote string, inputs cashu.Proofs) (q storage.MeltQuote, err error) {
-	e.op = "Melt"
-	err = e.guard(func() error {
+	err = e.guard("Melt", func() error {
 		ctx, cancel := context.WithTimeout(context.Background(), 60*time.Second)
 		defer cancel()
 		var er error
@@ -353,20 +349,17 @@ func (e *Env) Melt(quote string, inputs cashu.Proofs) (q storage.MeltQuote, err 
 }
 
 func (e *Env) CheckState(Ys []string) (st []nut07.ProofState, err error) {
-	e.op = "CheckState"
-	err = e.guard(func() error { var er error; st, er = e.M.ProofsStateCheck(Ys); return er })
+	err = e.guard("CheckState", func() error { var er error; st, er = e.M.ProofsStateCheck(Ys); return er })
 	return
 }
 
 func (e *Env) Restore(outs cashu.BlindedMessages) (o cashu.BlindedMessages, s cashu.BlindedSignatures, err error) {
-	e.op = "Restore"
-	err = e.guard(func() error { var er error; o, s, er = e.M.RestoreSignatures(outs); return er })
+	err = e.guard("Restore", func() error { var er error; o, s, er = e.M.RestoreSignatures(outs); return er })
 	return
 }
 
 func (e *Env) Rotate(fee uint) (err error) {
-	e.op = "Rotate"
-	err = e.guard(func() error { _, er := e.M.RotateKeyset(fee); return er })
+	err = e.guard("Rotate", func() error { _, er := e.M.RotateKeyset(fee); return er })
 	if err == nil {
 		e.RefreshKeysets()
 	}
